@@ -527,7 +527,9 @@ class Executor(object):
                 else: st.regs[res] = self.wrap(st, v, dt.bits)
             elif op in ('sitofp', 'uitofp'): st.regs[res] = z3.ToReal(v) if not is_conc(v) else z3.RealVal(v)
             else:
-                st.notes.append('fptosi approximated'); st.regs[res] = self.fresh('fptosi')
+                if z3.is_expr(v) and v.decl().kind() == z3.Z3_OP_TO_REAL: st.regs[res] = v.arg(0)
+                else:
+                    st.notes.append('fptosi approximated'); st.regs[res] = self.fresh('fptosi')
             return None
         if op in ('add', 'sub', 'mul', 'sdiv', 'udiv', 'srem', 'urem', 'and', 'or', 'xor', 'shl', 'ashr', 'lshr'):
             body = rhs[len(op):]
